@@ -19,5 +19,5 @@ pub fn run(ctx: &Ctx, replay: Option<&str>) -> i32 {
          distinct script with >=3 different operations and an equality check or an expected error.",
     );
     ctx.assume("operation semantics as documented in steel-core's primitives (doc comments); hash-union is left biased; floats are left to C10");
-    collcheck::run(ctx, replay, "c11", Mode::Model, 4000, 150_000, false)
+    collcheck::run(ctx, replay, "c11", Mode::Model, 20_000, 600_000, false)
 }
